@@ -11,7 +11,7 @@ from ..core import Ctx
 from ..flow import AV
 from ..model import AnalysisError, ClassInfo, FuncInfo, dotted, kwarg, norm, walk_no_nested
 from .common import assigned_value, bound_args, enclosing, expand_locals, flat_subscript, pargs, pnorm, prog, resolve_local, view_env
-from .kernels import (concrete_dissimilarities, extract_d, extract_d_mat, identify, spec_formula, swap12)
+from .kernels import (SharedKernel, concrete_dissimilarities, extract_d, extract_d_mat, identify, spec_formula, swap12)
 
 CAPTURED = {"delta_empty", "_matrix", "alpha", "beta", "positional_dissim", "categorical_dissim"}
 NARROW_CASTS = {"np.int8", "np.int16", "np.uint8", "np.uint16", "numpy.int8", "numpy.int16"}
@@ -62,6 +62,9 @@ def rule_forms(ctx: Ctx):
         try:
             km = extract_d_mat(M, c)
             kd = extract_d(M, c)
+        except SharedKernel as e:
+            ctx.bad("R-C04-1", cd, None, f"{c.name}: {e}; d reads the instance's own values", construct=f"{c.name}: d_mat vs d", key=f"sibling:{c.name}")
+            continue
         except Unsupported as e:
             ctx.undecided("R-C04-1", cd, None, f"{c.name}: formula extraction failed: {e}", construct=c.name, key=f"extract:{c.name}")
             continue
